@@ -18,7 +18,7 @@ def run(replay=None):
     sents, r = grammar.enumerate_shapes('welltyped')
     rep.add_tlc(r)
     rep.count('welltyped_predicates', len(sents))
-    events, info = [], {}
+    events, info, canon = [], {}, {}
     for s in sents:
         toks, _ = render.substitute(s, lits=grammar.STD_LITS)
         for mode in ((0,) if not thorough else (0, 2)):
@@ -34,6 +34,7 @@ def run(replay=None):
                     ev['check'] = exc_name(e)
             events.append(ev)
             info[ev['id']] = text
+            canon[ev['id']] = ' '.join(toks)
             rep.clause('parse:%s/check:%s' % (o, ev['check']))
     canaries = []
     for ev in events:
@@ -49,7 +50,7 @@ def run(replay=None):
     if gen:
         raise tlc.MachineryError('generated predicates are not well-typed under the schema according to HplTyping: %r' % [(info[i], c) for i, c in gen[:5]])
     for i, clause in split_canaries(res, [c['id'] for c in canaries]):
-        rep.violation(signature(clause, info[i]), '%s: %r' % (clause, info[i]), {'text': info[i], 'clause': clause})
+        rep.violation(signature(clause, canon[i]), '%s: %r' % (clause, info[i]), {'text': info[i], 'clause': clause})
     for e in events[:: max(1, len(events) // 8)]:
         rep.sample({'text': info[e['id']], 'parser': e['out'], 'schema_check': e['check']})
     return rep.finish()
